@@ -93,3 +93,24 @@ Proof.
   apply str_eqb_eq in H. subst u. unfold covers_root. cbn [existsb fst resolve].
   unfold HASH. rewrite N.eqb_refl. rewrite lookup_id_head. reflexivity.
 Qed.
+
+(* the loader WITH the pre-check (follow-up proposed_fix/C16-2-after-C01-1): full statement,
+   for a root element of the registered name *)
+Lemma prechecked_loader_full dupfail now s nm i pl kids cert m :
+  s_kind s <> Inline -> s_cert s = true -> root_signed (El nm i pl kids) = true ->
+  load_source now (signed_source_prechecked s dupfail (El nm i pl kids) nm cert) = Ok m ->
+  own_signature_ok (El nm i pl kids) nm cert = true.
+Proof.
+  intros Hk Hc Hs Hl. pose proof Hl as Hl0. apply load_source_ok in Hl as [Hp [Hh Ha]].
+  cbn [signed_source_prechecked s_kind s_cert s_doc d_signed s_verdict] in Ha.
+  destruct (Ha Hk Hc Hs) as [_ Hv]. unfold md_verdict_prechecked in Hv. cbn [root_id] in Hv.
+  destruct (precheck (El nm i pl kids) nm i) eqn:Epre; [|discriminate].
+  destruct i as [v|]; [|discriminate Epre].
+  apply (own_signature_partial dupfail now s (El nm (Some v) pl kids) nm cert m Hk Hc Hs
+           (precheck_root_first_sig_is_own _ _ _ _ Epre)).
+  (* the un-prechecked source with the same verdict is registered as well *)
+  apply load_source_complete.
+  - split; [exact Hh|]. intros _ _ _. cbn [signed_source s_kind s_verdict].
+    destruct (Ha Hk Hc Hs) as [Hr _]. split; [exact Hr|exact Hv].
+  - exact Hp.
+Qed.
